@@ -9,21 +9,35 @@
 (* A mismatch does not block the trace: the step is taken and the record   *)
 (* index with the failed clause is appended to `bad`.                      *)
 (***************************************************************************)
-EXTENDS TrgV3, Json, IOUtils, TLC
+EXTENDS TrgV3, AdcV3, PwbChunk, PwbV2, TLC
 
 Recs == ndJsonDeserialize(IOEnv.TRACE)
 
 WF(r) == CASE r.fam = "trg" -> TrgWellFormed(r.bytes)
+            [] r.fam = "adc" -> AdcWellFormed(r.bytes)
+            [] r.fam = "chunk" -> ChunkWellFormed(r.bytes)
+            [] r.fam = "pwb" -> PwbWellFormed(r.bytes)
 Fields(r) == CASE r.fam = "trg" -> TrgFields(r.bytes)
-Reenc(r) == CASE r.fam = "trg" -> EncodeTrg(r.acc)
+               [] r.fam = "adc" -> AdcFields(r.bytes)
+               [] r.fam = "chunk" -> ChunkFields(r.bytes)
+               [] r.fam = "pwb" -> PwbFields(r.bytes)
+\* re-encoding the accessor values reproduces the input (ADC: apart from the two unused footer bits)
+ReencOk(r) == CASE r.fam = "trg" -> EncodeTrg(r.acc) = r.bytes
+                [] r.fam = "adc" -> EncodeAdc(r.acc) = MaskUnused(r.bytes)
+                [] r.fam = "chunk" -> EncodeChunk(r.acc) = r.bytes
+                [] r.fam = "pwb" -> EncodePwb(r.acc) = r.bytes
 Extra(r) == CASE r.fam = "trg" -> TrgOrdered(r.acc)
+              [] OTHER -> TRUE
 
 Judge(r) ==
   IF r.verdict \notin {"ok", "err"} THEN "crash"
   ELSE IF (r.verdict = "ok") # WF(r) THEN "verdict"
+  \* a record marked `mut` is a 1-3 bit / burst mutant of an accepted chunk (C03): the
+  \* specification itself must reject it
+  ELSE IF "mut" \in DOMAIN r /\ WF(r) THEN "mutant-accepted"
   ELSE IF r.verdict = "err" THEN "fine"
   ELSE IF r.acc # Fields(r) THEN "acc"
-  ELSE IF Reenc(r) # r.bytes THEN "reenc"
+  ELSE IF ~ReencOk(r) THEN "reenc"
   ELSE IF ~Extra(r) THEN "extra"
   ELSE "fine"
 
